@@ -300,12 +300,17 @@ pub fn check_reject(c: &RejectCase, obs: &mut Obs) -> Verdict {
     let mut base_model = model_for(&base_rows, case.opening_for(sec));
     // a planted sale with a contradicting declared amount is itself a sale the look-ahead of an earlier loss sale sees: whether it
     // empties a holding exactly (the R1b signature) is read off the history with the declaration taken out
-    if matches!(me.cause, Cause::SflMismatch | Cause::SflOnNonLoss) {
+    let probe2: Vec<crate::model::MDelta>;
+    // (whatever the model's first cause is: a planted declared sale that empties the holding may be followed by an over-sale the model
+    // reports instead; the rows up to the model's stopping point are what the look-ahead of an earlier loss sale gets to see)
+    {
         let undeclared: Vec<HRow> = case.rows.iter().enumerate().filter(|(_, r)| &r.sec == sec).map(|(i, r)| { let mut r = r.clone(); if i == c.planted_ix { r.sfl.clear(); } r }).collect();
         let m2 = model_for(&undeclared, case.opening_for(sec));
-        if m2.err.is_none() { base_model = m2; }
+        if matches!(me.cause, Cause::SflMismatch | Cause::SflOnNonLoss) { base_model = MResult { rows: m2.rows.clone(), err: None }; }
+        probe2 = m2.rows;
     }
-    if let Some(id) = residue_class(&sec_rows, &MResult { rows: base_model.rows.clone(), err: None }, msg) {
+    let residue_any = |msg: &str| -> Option<&'static str> { residue_class(&sec_rows, &MResult { rows: base_model.rows.clone(), err: None }, msg).or_else(|| residue_class(&sec_rows, &MResult { rows: probe2.clone(), err: None }, msg)) };
+    if let Some(id) = residue_any(msg) {
         let planted_msg = match me.cause { Cause::OverSale | Cause::OverSaleSeenFromWindow { .. } => msg.contains(&offending.td.to_string()) && (msg.contains(&format!(" of {} shares", offending.shares)) || msg.contains("30-day period")), Cause::RocExceedsAcb => msg.contains("Invalid RoC") && msg.contains(&offending.td.to_string()), Cause::FractionalReverseSplit => msg.contains("non-integer") && msg.contains(&offending.td.to_string()), _ => false };
         if !planted_msg { return known_or_fail(id, format!("{sec} is rejected before the planted row for a rounding-residue reason: {msg}\n{csv}")); }
     }
@@ -315,6 +320,24 @@ pub fn check_reject(c: &RejectCase, obs: &mut Obs) -> Verdict {
     if model.rows.iter().any(|m| m.raw_gain.as_ref().map(|g| !g.is_zero() && g.abs().lt(&eps9)).unwrap_or(false)) { return Verdict::Skip("loss-below-comparison-tolerance".into()); }
     // (3a) message identifies the transaction: carries the offending row's trade date
     let date = offending.td.to_string();
+    if !msg.contains(&date) && matches!(me.cause, Cause::OverSaleSeenFromWindow { .. }) && msg.contains("30-day period after sale") && sec_rows.iter().any(risky_split) {
+        // R1b again: the look-ahead's running count carries ~1e-27 of residue across a split with a non-terminating factor, so it already
+        // "goes below zero" at an earlier sale of the window that brings a balance to exactly zero, and names that sale's date instead
+        let mut idx: Vec<usize> = (0..sec_rows.len()).collect(); idx.sort_by_key(|&i| (sec_rows[i].sd, i));
+        let mut bal: BTreeMap<String, Rat> = BTreeMap::new();
+        if let Some((sh, _)) = case.opening_for(sec) { bal.insert("default".into(), sh); }
+        let mut exact_zero_dates: Vec<String> = vec![];
+        for &i in &idx {
+            let r = &sec_rows[i]; let m = r.to_mrow_lenient(); let id = affiliate_id(&r.af).0;
+            match r.act {
+                Act::Buy => { let e = bal.entry(id).or_insert(Rat::zero()); *e = e.add(&m.shares); }
+                Act::Sell => { let e = bal.entry(id).or_insert(Rat::zero()); *e = e.sub(&m.shares); let tot = bal.values().fold(Rat::zero(), |a, b| a.add(b)); if bal.values().any(|b| b.is_zero()) || tot.is_zero() { exact_zero_dates.push(r.td.to_string()); } }
+                Act::Split => { let f = m.split.0.div(&m.split.1); if r.is_global_split() { for e in bal.values_mut() { *e = e.mul(&f); } } else { let e = bal.entry(id).or_insert(Rat::zero()); *e = e.mul(&f); } }
+                _ => {}
+            }
+        }
+        if exact_zero_dates.iter().any(|d| msg.contains(d.as_str())) { return known_or_fail("R1b", format!("{sec}: the over-sale is reported at an earlier sale that empties a holding exactly (look-ahead residue): {msg}\n{csv}")); }
+    }
     if !msg.contains(&date) { return Verdict::Fail(format!("rejection message does not identify the offending transaction (trade date {date}): {msg}\n{csv}")); }
     // (3b) rows shown are a correct prefix ending before the offending transaction
     let mut n = normalize_all(&tool.deltas);
@@ -325,7 +348,7 @@ pub fn check_reject(c: &RejectCase, obs: &mut Obs) -> Verdict {
     }
     if let Err(e) = with_opening(&n, &case.opening_for(sec)) { return Verdict::Fail(format!("{sec}: {e}\n{csv}")); }
     match compare(&mrows, &n, true, &CmpWhat::all()) {
-        Ok(st) => { let want = mrows.iter().filter(|m| m.src.is_some()).count(); if st.user_rows < want { if let Some(id) = residue_class(&sec_rows, &MResult { rows: base_model.rows.clone(), err: None }, msg) { return known_or_fail(id, format!("{sec} is rejected before the planted row for a rounding-residue reason: {msg}\n{csv}")); } } if st.user_rows != want { return Verdict::Fail(format!("{sec}: rows shown ({} input rows) are not the ledger prefix before the offending transaction ({} input rows)\nmessage: {msg}\n{csv}", st.user_rows, want)); } }
+        Ok(st) => { let want = mrows.iter().filter(|m| m.src.is_some()).count(); if st.user_rows < want { if let Some(id) = residue_any(msg) { return known_or_fail(id, format!("{sec} is rejected before the planted row for a rounding-residue reason: {msg}\n{csv}")); } } if st.user_rows != want { return Verdict::Fail(format!("{sec}: rows shown ({} input rows) are not the ledger prefix before the offending transaction ({} input rows)\nmessage: {msg}\n{csv}", st.user_rows, want)); } }
         Err(e) => {
             if let Err((_, at)) = crate::cmp::compare_at(&mrows, &n, true, &CmpWhat::all()) { if let Some(id) = zero_residue_class(&sec_rows, &MResult { rows: mrows.clone(), err: None }, at) { return known_or_fail(id, format!("{sec}: prefix shown differs for a recorded rounding-residue reason: {e}\n{csv}")); } }
             return Verdict::Fail(format!("{sec}: rows shown for the rejected history are not a correct prefix: {e}\nmessage: {msg}\n{csv}{}", if std::env::var("ACBVERIF_DUMP").is_ok() { crate::cmp::dump(&mrows, &n) } else { String::new() }));
